@@ -692,7 +692,6 @@ func runReplicas(r *ev.Run) {
 	var scenarios [][]rstep
 	if r.Thorough() {
 		scenarios = structuredScenarios(1, 2, 2)
-		scenarios = append(scenarios, structuredScenarios(2, 1, 2)...)
 	} else {
 		scenarios = structuredScenarios(1, 1, 2)
 	}
